@@ -250,10 +250,54 @@ pub fn gen_long(rng: &mut Rng, nops: usize) -> Vec<Op> {
     ops
 }
 
+/// a five-slot leaf whose symmetry group is built in two or three steps (a swap, a double swap, a three-cycle, in any order and
+/// on any positions), with parents and unrelated operations in between: every equality seen after one step must survive the next
+fn gen_sym5(rng: &mut Rng) -> Vec<Op> {
+    let names = [4u32, 8, 12, 16, 20];
+    let f = |perm: &Vec<usize>| leaf(20, &perm.iter().map(|&i| names[i]).collect::<Vec<_>>());
+    let id: Vec<usize> = (0..5).collect();
+    let mut pos: Vec<usize> = (0..5).collect();
+    rng.shuffle(&mut pos);
+    let mut swap = id.clone();
+    swap.swap(pos[2], pos[4]);
+    let mut dbl = id.clone();
+    dbl.swap(pos[0], pos[1]);
+    dbl.swap(pos[2], pos[3]);
+    let mut cyc = id.clone();
+    cyc[pos[0]] = pos[1];
+    cyc[pos[1]] = pos[2];
+    cyc[pos[2]] = pos[0];
+    let mut gens = vec![swap, dbl];
+    if rng.chance(1, 2) {
+        gens.push(cyc);
+    }
+    rng.shuffle(&mut gens);
+    let mut ops: Vec<Op> = vec![Op::Add(f(&id))];
+    if rng.chance(1, 2) {
+        ops.push(Op::Add(un(13, f(&id))));
+    }
+    let base = 0;
+    for g in &gens {
+        let k = ops.iter().filter(|o| matches!(o, Op::Add(_))).count();
+        ops.push(Op::Add(f(g)));
+        ops.push(Op::Union(base, k));
+        if rng.chance(1, 2) {
+            ops.push(Op::Add(un(13, f(g))));
+        }
+    }
+    ops
+}
+
 pub fn run(ctx: &mut Ctx) {
     let nops = ctx.param("ops", 40);
     for _ in 0..ctx.count {
         let mut rng = ctx.rng.fork();
+        if rng.chance(1, 8) {
+            for c in exec_hist(gen_sym5(&mut rng)) {
+                ctx.emit(c);
+            }
+            continue;
+        }
         for c in exec_hist(gen_long(&mut rng, nops)) {
             ctx.emit(c);
         }
